@@ -98,6 +98,27 @@ Theorem C08_single_line_flush_independent :
 Proof. exact single_line_lemma. Qed.
 Print Assumptions C08_single_line_flush_independent.
 
+(* 3'. As runConnection drives the reader, for EVERY sequence of read results (data with or
+   without a deadline renewal, timeouts, finally an error): the records are those of the
+   specification with flushes; and for a stream of single-line records they are the lines,
+   whatever the timing.  [ops_text (conn_ops evs)] is the text received before the close. *)
+Theorem C08_connection_characterisation :
+  forall (test : bytes -> bool) (min_buf limit b : nat) (evs : list event),
+  test [] = false -> 1 <= limit -> 2 * b + 1 + limit <= Nat.max min_buf (limit * 3) ->
+  seg_bound test b (ops_text (conn_ops evs)) ->
+  exists st', run_ops test (conn_ops evs) (new_mlr min_buf limit) [] =
+              Ok (st', spec_ops test [] (conn_ops evs)).
+Proof. exact conn_characterisation_lemma. Qed.
+Print Assumptions C08_connection_characterisation.
+
+Theorem C08_connection_single_line :
+  forall (test : bytes -> bool) (min_buf limit b : nat) (ls : list bytes) (evs : list event),
+  test [] = false -> 1 <= limit -> 2 * b + 1 + limit <= Nat.max min_buf (limit * 3) ->
+  Forall (valid_line test b) ls -> ops_text (conn_ops evs) = unlines ls ->
+  exists st', run_ops test (conn_ops evs) (new_mlr min_buf limit) [] = Ok (st', ls).
+Proof. exact conn_single_line_lemma. Qed.
+Print Assumptions C08_connection_single_line.
+
 (* 4. Continuation lines: a line c that is no record start and directly follows a record
    start line l comes out in the same record as l, whatever the fragmentation, when no flush
    occurs (the tester only looks at the head of a record: test a -> test (a ++ z)). *)
